@@ -734,7 +734,34 @@ def json_Unmarshal(ex, st, args, ctx):
     def ok(s2):
         ex.store(s2, target.v, havoc(ex, s2, et, 'json'))
         return NIL
-    return Forks([(c, ok, None), (z3.Not(c), Iface(-1, Opaque('error', msg=S('json syntax/type error'), origin=ctx['pos'])), None)])
+
+    def maybe_zero(v_):
+        if isinstance(v_, Str):
+            return v_.z is not None and z3.is_string_value(z3.simplify(v_.z)) and z3.simplify(v_.z).as_string() == ''
+        if isinstance(v_, Slice):
+            return isinstance(v_.len, int) and v_.len == 0
+        if v_ is NIL:
+            return True
+        if z3.is_expr(v_) and z3.is_bv(v_):
+            return z3.is_bv_value(z3.simplify(v_)) and z3.simplify(v_).as_long() == 0
+        return True
+    old = ex.load(st, target.v)
+    stale_fields = [i for i, f_ in enumerate(old.f) if not maybe_zero(f_)] if isinstance(old, Struct) else []
+    alts = [(c, ok, None), (z3.Not(c), Iface(-1, Opaque('error', msg=S('json syntax/type error'), origin=ctx['pos'])), None)]
+    if stale_fields:
+        # encoding/json leaves the fields of the target whose keys are absent from the document as they were: with a reused target those are
+        # the values of whatever was decoded into it before
+        used('encoding/json.Unmarshal into a target that already holds values: fields whose keys are absent from the document keep them')
+        absent = z3.Bool(ex.newsym('json_keys_absent'))
+
+        def ok_stale(s2):
+            new = havoc(ex, s2, et, 'json')
+            cur = ex.load(s2, target.v)
+            s2.events.append(('tag', 'stale_json_field'))
+            ex.store(s2, target.v, Struct([cur.f[i] if i in stale_fields else new.f[i] for i in range(len(new.f))]))
+            return NIL
+        alts = [(z3.And(c, z3.Not(absent)), ok, None), (z3.And(c, absent), ok_stale, None), alts[1]]
+    return Forks(alts)
 
 
 # ------------------------------------------------------------------------------------------ groth16 proof object (C10)
@@ -843,7 +870,45 @@ def sync_pool_get(ex, st, args, ctx):
     newf = ex.load(st, p).f[-1]
     if not isinstance(newf, Func):
         return NIL
-    return ('tailcallv', newf, [])
+    if newf.binds or newf.recv is not None:
+        return ('tailcallv', newf, [])
+    used('sync.Pool.Get on an empty pool in this run: New(), or (the process has served earlier requests) an object an earlier user put back - its contents arbitrary')
+    stale = z3.Bool(ex.newsym('pool_object_was_used_before'))
+
+    def post(st2, val):
+        ptr = val.v if isinstance(val, Iface) else val
+        if not isinstance(ptr, Ptr) or not isinstance(val, Iface):
+            return val
+        try:
+            et = deref_type(ex, val.t)
+            if ex.under(et)['kind'] != 'struct' or not isinstance(st2.heap.get(ptr.obj), Struct) or ptr.path:
+                return val
+            old = st2.heap[ptr.obj]
+            hv = havoc(ex, st2, et, 'pooled')
+        except Unsupported:
+            return val
+        zero = []
+
+        def walk(h, z):
+            if isinstance(h, Str) and h.z is not None:
+                zero.append(h.z == z3.StringVal(''))
+            elif isinstance(h, Slice):
+                if not isinstance(h.len, int):
+                    zero.append(h.len == 0)
+            elif z3.is_expr(h) and z3.is_bv(h):
+                zero.append(h == 0)
+            elif z3.is_expr(h) and z3.is_bool(h):
+                zero.append(z3.Not(h))
+            elif isinstance(h, Struct):
+                for a, b in zip(h.f, z.f if isinstance(z, Struct) else h.f):
+                    walk(a, b)
+            elif isinstance(h, Big):
+                zero.append(h.v == 0)
+        walk(hv, old)
+        st2.pc.append(z3.Implies(z3.Not(stale), z3.And(*zero) if zero else z3.BoolVal(True)))
+        st2.heap[ptr.obj] = hv
+        return val
+    return ('tailcall', newf.name, [], post)
 
 
 def sync_pool_put(ex, st, args, ctx):
